@@ -1154,3 +1154,429 @@ Proof.
   assert (Ne : e0 <> e) by (intros ->; rewrite Hc in H0; injection H0 as <-; apply Nc; reflexivity).
   right. exists e0. rewrite fupd_other by exact Ne. split; [apply in_remove_iff; auto|exact H0].
 Qed.
+
+Lemma remove_step s lb lf e c rs' lf' :
+  InvL s lb lf -> In e lb -> h_cur (p_vals s e) = Some c -> rsinv rs' (remove Nat.eq_dec e lb) lf' ->
+  InvL (set_rs (clear_cur (set_curs (if h_busy (p_vals s e) then s else close_cur s c)
+                   (map_del (p_curs (if h_busy (p_vals s e) then s else close_cur s c))
+                            (c_id (p_cur (if h_busy (p_vals s e) then s else close_cur s c) c)))) e) rs')
+       (remove Nat.eq_dec e lb) lf'.
+Proof.
+  intros (R & M & A & C & Q & T) I Hc R'.
+  assert (ND : NoDup lb) by (destruct R as (R1 & _); exact (ring_nodup _ _ _ R1)).
+  destruct (h_busy (p_vals s e)) eqn:Hb.
+  - destruct (groups_remove_busy _ _ _ _ _ _ _ _ _ _ _ _ M A C Q T ND I Hc Hb) as (M' & A' & C' & Q' & T').
+    unfold InvL; sproj. unfold cleared in *. rewrite Hb in *. repeat (split; [assumption|]). assumption.
+  - destruct (groups_remove_idle _ _ _ _ _ _ _ _ _ _ _ _ M A C Q T ND I Hc Hb) as (Hl & M' & A' & C' & Q' & T').
+    rewrite close_cur_eq by exact Hl.
+    unfold InvL; sproj. rewrite fupd_same. cbn [closed_of c_id]. unfold cleared in *. rewrite Hb in *.
+    repeat (split; [assumption|]). assumption.
+Qed.
+
+Definition ok_inv1 (o : outcome prov) : Prop := exists s', o = Ok s' /\ Inv s'.
+
+Lemma close_cur_rs s c : p_rs (close_cur s c) = p_rs s.
+Proof. unfold close_cur. destruct (c_live (p_cur s c)); reflexivity. Qed.
+Lemma busy_or_close_rs (b : bool) s c : p_rs (if b then s else close_cur s c) = p_rs s.
+Proof. destruct b; [reflexivity|apply close_cur_rs]. Qed.
+
+Lemma lb_bound rs lb lf : rsinv rs lb lf -> length lb <= r_nelem rs.
+Proof.
+  intros (R1 & _ & _ & B). pose proof (ring_nodup _ _ _ R1) as ND.
+  rewrite <- (seq_length (r_nelem rs) 0). apply NoDup_incl_length; [exact ND|].
+  intros x Hx. apply in_seq. specialize (B x (or_introl Hx)). lia.
+Qed.
+
+Lemma inv_sweep_size_loop fuel : forall s lb lf, InvL s lb lf -> length lb <= fuel -> ok_inv1 (sweep_size_loop fuel s).
+Proof.
+  induction fuel as [|f IH]; intros s lb lf HI Hf.
+  - pose proof HI as (R & (M1 & M2 & M3) & _). cbn [sweep_size_loop].
+    destruct (Nat.leb (length (p_curs s)) (p_max s)) eqn:E; [exists s; split; [reflexivity|exists lb, lf; exact HI]|].
+    apply Nat.leb_gt in E. lia.
+  - cbn [sweep_size_loop].
+    destruct (Nat.leb (length (p_curs s)) (p_max s)) eqn:E; [exists s; split; [reflexivity|exists lb, lf; exact HI]|].
+    apply Nat.leb_gt in E.
+    pose proof HI as (R & (M1 & M2 & M3) & _).
+    assert (Hne : p_curs s <> []) by (intros Z; rewrite Z in E; cbn in E; lia).
+    destruct (map_nonempty_get _ Hne) as (k & e0 & Hk). destruct (M1 k e0 Hk) as (I0 & _).
+    destruct (r_busy (p_rs s)) as [hd|] eqn:Eb; [|rewrite (rs_busy_none _ _ _ R Eb) in I0; destruct I0].
+    pose proof (rs_head_in _ _ _ _ R Eb) as Ihd.
+    destruct (rs_prev_in _ _ _ _ R Ihd) as [Ie _].
+    set (e := cl_prev_of (r_links (p_rs s)) hd) in *.
+    destruct (M2 e Ie) as (c & Hc & _). rewrite Hc.
+    destruct (rs_remove_spec _ _ _ _ R Ie) as (R' & _).
+    eapply IH.
+    + match goal with |- InvL (set_rs ?s3 (rs_remove (p_rs ?s3) e)) _ _ =>
+        replace (p_rs s3) with (p_rs s) by (unfold clear_cur, set_val, set_vals, set_curs; cbn [p_rs]; symmetry; apply busy_or_close_rs) end.
+      apply (remove_step s lb lf e c _ lf HI Ie Hc R').
+    + destruct R as (R1 & _). rewrite (remove_length_nodup e lb (ring_nodup _ _ _ R1) Ie) in Hf. lia.
+Qed.
+
+Lemma inv_sweep_size s : Inv s -> ok_inv1 (sweep_size s).
+Proof.
+  intros (lb & lf & HI). unfold sweep_size. apply (inv_sweep_size_loop _ s lb lf HI).
+  destruct HI as (R & _). pose proof (lb_bound _ _ _ R). lia.
+Qed.
+
+Lemma inv_sweep_time_loop cnt : forall e0 s lb lf, InvL s lb lf -> cnt <= length lb -> (lb <> [] -> In e0 lb) ->
+  ok_inv1 (sweep_time_loop cnt e0 s).
+Proof.
+  induction cnt as [|cnt IH]; intros e0 s lb lf HI Hc Hin; cbn [sweep_time_loop].
+  - exists s. split; [reflexivity|exists lb, lf; exact HI].
+  - pose proof HI as (R & (M1 & M2 & M3) & _).
+    assert (Hne : lb <> []) by (intros Z; rewrite Z in Hc; cbn in Hc; lia).
+    specialize (Hin Hne).
+    destruct (rs_prev_in _ _ _ _ R Hin) as [Ie _].
+    set (e := cl_prev_of (r_links (p_rs s)) e0) in *.
+    destruct (M2 e Ie) as (c & Hcur & _).
+    destruct (Z.ltb (h_exp (p_vals s e)) (p_now s)).
+    + rewrite Hcur.
+      destruct (rs_remove_spec _ _ _ _ R Ie) as (R' & Sl & Ne' & _).
+      assert (Nb' : ~ In e (remove Nat.eq_dec e lb)) by apply remove_In.
+      assert (Nf : ~ In e lf) by (destruct R as (_ & _ & D & _); apply D; exact Ie).
+      assert (Lt : e < r_nelem (rs_remove (p_rs s) e)) by (rewrite Ne'; destruct R as (_ & _ & _ & B); apply B; left; exact Ie).
+      destruct (rs_push_free_spec _ _ _ _ R' Sl Nb' Nf Lt) as (lf' & R'' & _).
+      assert (Prs : p_rs (if h_busy (p_vals s e) then s else close_cur s c) = p_rs s) by apply busy_or_close_rs.
+      destruct (rs_prev_in _ _ _ _ R Ie) as [Ie1 Sole].
+      eapply (IH _ _ (remove Nat.eq_dec e lb) lf').
+      * pose proof (remove_step s lb lf e c _ lf' HI Ie Hcur R'') as St.
+        unfold InvL in St |- *. revert St. sproj. rewrite Prs. sproj. exact (fun x => x).
+      * destruct R as (R1 & _). rewrite (remove_length_nodup e lb (ring_nodup _ _ _ R1) Ie) in Hc. lia.
+      * intros Hne'. rewrite Prs. unfold cl_next_of. fold (cl_prev_of (r_links (p_rs s)) e).
+        apply in_remove_iff. split; [exact Ie1|]. intros Eq. apply Hne'. rewrite (Sole Eq). cbn.
+        destruct (Nat.eq_dec e e); [reflexivity|contradiction].
+    + destruct (negb (h_busy (p_vals s e))); [exists s; split; [reflexivity|exists lb, lf; exact HI]|].
+      apply (IH e s lb lf HI); [lia|intros _; exact Ie].
+Qed.
+
+Lemma inv_sweep_time s : Inv s -> ok_inv1 (sweep_time s).
+Proof.
+  intros (lb & lf & HI). unfold sweep_time.
+  destruct (r_busy (p_rs s)) as [hd|] eqn:Eb; [|exists s; split; [reflexivity|exists lb, lf; exact HI]].
+  pose proof HI as (R & (_ & _ & M3) & _).
+  apply (inv_sweep_time_loop _ hd s lb lf HI M3). intros _. apply (rs_head_in _ _ _ _ R Eb).
+Qed.
+
+(* ================= every step of every actor preserves the invariant ================= *)
+Lemma lift_ok o : ok_inv1 o -> ok_inv (lift o).
+Proof. intros (s' & -> & H). exists s', RDone. auto. Qed.
+
+Lemma inv_step s o : Inv s -> guard s o = true -> ok_inv (step s o).
+Proof.
+  intros HI G. destruct o; cbn [step].
+  - apply inv_lookup; assumption.
+  - apply inv_create; assumption.
+  - apply inv_insert; assumption.
+  - apply inv_use; assumption.
+  - apply inv_release; assumption.
+  - apply lift_ok. apply inv_sweep_size; assumption.
+  - apply lift_ok. apply inv_sweep_time; assumption.
+  - eexists _, _. split; [reflexivity|]. destruct HI as (lb & lf & R & M & A & C & Q & T). exists lb, lf.
+    unfold InvL; sproj. repeat (split; [assumption|]). intros e I. specialize (T e I). cbn [guard] in G. apply Z.leb_le in G. lia.
+  - apply ok_same. exact HI.
+Qed.
+
+Lemma inv_run ops : forall s, Inv s -> disciplined s ops = true ->
+  snd (run s ops) = Ok tt /\ Inv (fst (fst (run s ops))) /\ length (snd (fst (run s ops))) = length ops.
+Proof.
+  induction ops as [|o ops IH]; intros s HI D; cbn [run disciplined] in *.
+  - cbn. auto.
+  - apply andb_true_iff in D. destruct D as [G D].
+    destruct (inv_step s o HI G) as (s' & r & E & HI'). rewrite E in *.
+    destruct (IH s' HI' D) as (H1 & H2 & H3). destruct (run s' ops) as [[sf rs] oc]. cbn in *. auto.
+Qed.
+
+(* ================= consequences ================= *)
+Lemma reachable_iff s lb lf c : InvL s lb lf -> (reachable s c <-> reachp (p_act s) (p_vals s) lb c).
+Proof.
+  intros (_ & (M1 & M2 & _) & _). unfold reachable, reachp, holds. split; intros [H|H]; [left; exact H| |left; exact H|].
+  - destruct H as (k & e & Hk & He). right. exists e. split; [apply (M1 k e Hk)|exact He].
+  - destruct H as (e & I & He). right. destruct (M2 e I) as (c' & Hc' & _ & _ & Hm). rewrite He in Hc'. injection Hc' as <-.
+    exists (c_id (p_cur s c)), e. auto.
+Qed.
+
+Lemma live_sum_dead cur n p : (forall c, c < n -> c_live (cur c) = false) -> live_sum cur n p = 0%Z.
+Proof.
+  induction n as [|n IH]; intros H; cbn [live_sum]; [reflexivity|].
+  rewrite IH by (intros c Hc; apply H; lia). rewrite (H n) by lia. reflexivity.
+Qed.
+
+(* the per-cursor accounting under the invariant: open iff referred to; closed and released exactly once otherwise *)
+Lemma inv_once s : Inv s -> forall c, c < p_ncur s ->
+  (reachable s c -> c_live (p_cur s c) = true /\ c_closes (p_cur s c) = 0 /\ c_rels (p_cur s c) = 0) /\
+  (~ reachable s c -> c_live (p_cur s c) = false /\ c_closes (p_cur s c) = 1 /\ c_rels (p_cur s c) = 1).
+Proof.
+  intros (lb & lf & HI) c Hn. pose proof (reachable_iff s lb lf c HI) as RI.
+  destruct HI as (_ & (M1 & M2 & _) & (A1 & _) & (C1 & C2) & _).
+  destruct (C2 c Hn) as [E1 E2]. split.
+  - intros H. apply RI in H. assert (L : c_live (p_cur s c) = true).
+    { destruct H as [[r H]|(e & I & He)]; [apply (A1 r c H)|].
+      destruct (M2 e I) as (c' & Hc' & _ & Hl & _). rewrite He in Hc'. injection Hc' as <-. exact Hl. }
+    rewrite L in *. auto.
+  - intros H. destruct (c_live (p_cur s c)) eqn:L; [|auto]. exfalso. apply H. apply RI. apply (C1 c Hn L).
+Qed.
+
+Lemma inv_exclusive s : Inv s -> forall r r' c,
+  (act_get (p_act s) r = AHold c \/ act_get (p_act s) r = ACreated c) ->
+  (act_get (p_act s) r' = AHold c \/ act_get (p_act s) r' = ACreated c) -> r = r'.
+Proof.
+  intros (lb & lf & _ & _ & (_ & A2 & _) & _) r r' c H H'. apply (A2 r r' c); unfold holds; tauto.
+Qed.
+
+(* a cursor in use that is still in the cache is marked busy there: the next request for its id is refused *)
+Lemma inv_held_busy s : Inv s -> forall r c e, act_get (p_act s) r = AHold c ->
+  map_get (p_curs s) (c_id (p_cur s c)) = Some e -> h_busy (p_vals s e) = true /\ h_cur (p_vals s e) = Some c.
+Proof.
+  intros (lb & lf & _ & (M1 & M2 & _) & (_ & _ & A3 & _) & _) r c e H Hm.
+  destruct (A3 r c H) as [(e0 & I0 & Hc0 & Hb0)|[_ Hn]]; [|congruence].
+  destruct (M2 e0 I0) as (c' & Hc' & _ & _ & Hm'). rewrite Hc0 in Hc'. injection Hc' as <-.
+  rewrite Hm in Hm'. injection Hm' as ->. auto.
+Qed.
+
+Lemma inv_acq s : Inv s -> forall p, p_acq s p = live_sum (p_cur s) (p_ncur s) p.
+Proof. intros (lb & lf & _ & _ & _ & _ & Q & _). exact Q. Qed.
+
+(* ---- unconditional facts (every state, no discipline) ---- *)
+Lemma refuse_busy s r id cache q qr p fresh e :
+  act_get (p_act s) r = AIdle -> id <> 0%N -> map_get (p_curs s) id = Some e -> h_busy (p_vals s e) = true ->
+  get_lookup s r id cache q qr p fresh = Ok (s, RRefused).
+Proof.
+  intros Ea Hid Hm Hb. unfold get_lookup. rewrite Ea. apply N.eqb_neq in Hid. rewrite Hid, Hm, Hb. reflexivity.
+Qed.
+
+Lemma hit_only_idle s r id cache q qr p fresh s' c :
+  get_lookup s r id cache q qr p fresh = Ok (s', RHit c) ->
+  exists e, map_get (p_curs s) id = Some e /\ h_busy (p_vals s e) = false /\ h_cur (p_vals s e) = Some c.
+Proof.
+  unfold get_lookup. destruct (act_get (p_act s) r); try (intros H; discriminate H).
+  destruct (N.eqb id 0); [intros H; discriminate H|].
+  destruct (map_get (p_curs s) id) as [e|]; [|intros H; discriminate H].
+  destruct (h_busy (p_vals s e)) eqn:Eb; [intros H; discriminate H|].
+  destruct (h_cur (p_vals s e)) as [c0|] eqn:Ec; [|intros H; discriminate H].
+  destruct (apply_state (p_cur s c0) id q p); intros H; [|discriminate H]. injection H as _ Hc. subst c0. exists e. auto.
+Qed.
+
+Lemma resume_lookup s r id cache q qr p fresh :
+  act_get (p_act s) r = AIdle -> id <> 0%N -> map_get (p_curs s) id = None ->
+  get_lookup s r id cache q qr p fresh = Ok (set_actor s r (AMiss id q qr p cache), RMiss).
+Proof.
+  intros Ea Hid Hm. unfold get_lookup. rewrite Ea. apply N.eqb_neq in Hid. rewrite Hid, Hm. reflexivity.
+Qed.
+
+Lemma resume_create s r id q parts p cache :
+  act_get (p_act s) r = AMiss id q (QParts parts) p cache -> p <> PBad ->
+  exists s', get_create s r = Ok (s', RNew (p_ncur s)) /\
+    p_ncur s' = S (p_ncur s) /\
+    act_get (p_act s') r = (if cache then ACreated (p_ncur s) else AHold (p_ncur s)) /\
+    let cu := p_cur s' (p_ncur s) in
+    c_id cu = id /\ c_query cu = q /\ c_spos cu = p /\ c_ipos cu = pos_init p /\ c_parts cu = parts /\
+    c_live cu = true /\ c_closes cu = 0 /\ c_rels cu = 0.
+Proof.
+  intros Ea Hp. unfold get_create. rewrite Ea.
+  destruct p; try (exfalso; apply Hp; reflexivity);
+  (eexists; split; [reflexivity|]; sproj; rewrite act_get_set, Nat.eqb_refl, fupd_same; cbn; repeat split).
+Qed.
+
+(* ================= nothing stays pinned: at quiescence one sweep after the time-outs empties the cache ================= *)
+Definition time_remove (s : prov) (e c : nat) : prov :=
+  let s1 := if h_busy (p_vals s e) then s else close_cur s c in
+  let s2 := set_rs s1 (rs_remove (p_rs s1) e) in
+  let s3 := set_curs s2 (map_del (p_curs s2) (c_id (p_cur s2 c))) in
+  let s4 := clear_cur s3 e in
+  set_rs s4 (rs_push_free (p_rs s4) e).
+
+Lemma sweep_time_loop_S cnt e0 s :
+  sweep_time_loop (S cnt) e0 s =
+  let e := cl_prev_of (r_links (p_rs s)) e0 in
+  let ch := p_vals s e in
+  if Z.ltb (h_exp ch) (p_now s) then
+    match h_cur ch with
+    | None => Panic
+    | Some c => sweep_time_loop cnt (cl_next_of (r_links (p_rs (if h_busy ch then s else close_cur s c))) e) (time_remove s e c)
+    end
+  else if negb (h_busy ch) then Ok s else sweep_time_loop cnt e s.
+Proof. reflexivity. Qed.
+
+Lemma close_cur_fields s c :
+  p_act (close_cur s c) = p_act s /\ p_now (close_cur s c) = p_now s /\ p_vals (close_cur s c) = p_vals s /\
+  p_curs (close_cur s c) = p_curs s /\ p_ncur (close_cur s c) = p_ncur s /\ c_id (p_cur (close_cur s c) c) = c_id (p_cur s c).
+Proof. unfold close_cur. destruct (c_live (p_cur s c)); sproj; rewrite fupd_same; repeat split. Qed.
+
+Lemma time_remove_fields s e c :
+  p_act (time_remove s e c) = p_act s /\ p_now (time_remove s e c) = p_now s /\ p_ncur (time_remove s e c) = p_ncur s /\
+  p_vals (time_remove s e c) = fupd (p_vals s) e (cleared (p_vals s e)) /\
+  p_curs (time_remove s e c) = map_del (p_curs s) (c_id (p_cur s c)).
+Proof.
+  unfold time_remove. destruct (h_busy (p_vals s e)) eqn:Hb.
+  - sproj. unfold cleared. repeat split.
+  - destruct (close_cur_fields s c) as (F1 & F2 & F3 & F4 & F5 & F6). sproj. rewrite F1, F2, F3, F4, F5, F6. unfold cleared. repeat split.
+Qed.
+
+Lemma time_remove_inv s lb lf e c : InvL s lb lf -> In e lb -> h_cur (p_vals s e) = Some c ->
+  exists lf', InvL (time_remove s e c) (remove Nat.eq_dec e lb) lf'.
+Proof.
+  intros HI Ie Hcur. pose proof HI as (R & _).
+  destruct (rs_remove_spec _ _ _ _ R Ie) as (R' & Sl & Ne' & _).
+  assert (Nb' : ~ In e (remove Nat.eq_dec e lb)) by apply remove_In.
+  assert (Nf : ~ In e lf) by (destruct R as (_ & _ & D & _); apply D; exact Ie).
+  assert (Lt : e < r_nelem (rs_remove (p_rs s) e)) by (rewrite Ne'; destruct R as (_ & _ & _ & B); apply B; left; exact Ie).
+  destruct (rs_push_free_spec _ _ _ _ R' Sl Nb' Nf Lt) as (lf' & R'' & _).
+  exists lf'. pose proof (remove_step s lb lf e c _ lf' HI Ie Hcur R'') as St.
+  assert (Prs : p_rs (if h_busy (p_vals s e) then s else close_cur s c) = p_rs s) by apply busy_or_close_rs.
+  unfold time_remove. unfold InvL in St |- *. revert St. sproj. rewrite Prs. sproj. exact (fun x => x).
+Qed.
+
+Lemma drain_loop cnt : forall e0 s lb lf, InvL s lb lf -> p_act s = [] ->
+  (forall e, In e lb -> (h_exp (p_vals s e) < p_now s)%Z) ->
+  length (p_curs s) <= cnt -> cnt <= length lb -> (lb <> [] -> In e0 lb) ->
+  exists s', sweep_time_loop cnt e0 s = Ok s' /\ Inv s' /\ p_curs s' = [] /\ p_act s' = [] /\ p_ncur s' = p_ncur s.
+Proof.
+  induction cnt as [|cnt IH]; intros e0 s lb lf HI Hq Hexp Hlen Hc Hin.
+  - exists s. cbn [sweep_time_loop]. split; [reflexivity|]. split; [exists lb, lf; exact HI|].
+    split; [destruct (p_curs s); [reflexivity|cbn in Hlen; lia]|auto].
+  - rewrite sweep_time_loop_S. cbn zeta.
+    pose proof HI as (R & (M1 & M2 & M3) & _).
+    assert (Hne : lb <> []) by (intros Z; rewrite Z in Hc; cbn in Hc; lia).
+    specialize (Hin Hne).
+    destruct (rs_prev_in _ _ _ _ R Hin) as [Ie _].
+    set (e := cl_prev_of (r_links (p_rs s)) e0) in *.
+    destruct (M2 e Ie) as (c & Hcur & _ & _ & Hme).
+    pose proof (Hexp e Ie) as He. apply Z.ltb_lt in He. rewrite He, Hcur.
+    destruct (time_remove_inv s lb lf e c HI Ie Hcur) as (lf' & HI').
+    destruct (time_remove_fields s e c) as (F1 & F2 & F3 & F4 & F5).
+    destruct (rs_prev_in _ _ _ _ R Ie) as [Ie1 Sole].
+    destruct (IH (cl_next_of (r_links (p_rs (if h_busy (p_vals s e) then s else close_cur s c))) e)
+                 (time_remove s e c) (remove Nat.eq_dec e lb) lf' HI') as (s' & E & HI'' & G1 & G2 & G3).
+    + rewrite F1. exact Hq.
+    + intros e1 I1. apply in_remove_iff in I1. destruct I1 as [I1 Ne]. rewrite F2, F4, fupd_other by exact Ne. apply Hexp. exact I1.
+    + rewrite F5. pose proof (map_del_len_some _ _ _ Hme). lia.
+    + destruct R as (R1 & _). rewrite (remove_length_nodup e lb (ring_nodup _ _ _ R1) Ie) in Hc. lia.
+    + intros Hne'. rewrite busy_or_close_rs. unfold cl_next_of. fold (cl_prev_of (r_links (p_rs s)) e).
+      apply in_remove_iff. split; [exact Ie1|]. intros Eq. apply Hne'. rewrite (Sole Eq). cbn.
+      destruct (Nat.eq_dec e e); [reflexivity|contradiction].
+    + exists s'. rewrite G3, F3. auto.
+Qed.
+
+Lemma inv_empty_closed s : Inv s -> p_curs s = [] -> p_act s = [] ->
+  forall c, c < p_ncur s -> c_live (p_cur s c) = false /\ c_closes (p_cur s c) = 1 /\ c_rels (p_cur s c) = 1.
+Proof.
+  intros HI Hc Ha c Hn. apply (inv_once s HI c Hn). intros [(r & [H|H])|(k & e & Hk & _)].
+  - rewrite Ha in H. discriminate.
+  - rewrite Ha in H. discriminate.
+  - rewrite Hc in Hk. discriminate.
+Qed.
+
+Lemma drain s : Inv s -> p_act s = [] ->
+  (forall k e, map_get (p_curs s) k = Some e -> (h_exp (p_vals s e) < p_now s)%Z) ->
+  exists s', sweep_time s = Ok s' /\ p_curs s' = [] /\ p_ncur s' = p_ncur s /\
+    (forall c, c < p_ncur s' -> c_live (p_cur s' c) = false /\ c_closes (p_cur s' c) = 1 /\ c_rels (p_cur s' c) = 1) /\
+    (forall p, p_acq s' p = 0%Z).
+Proof.
+  intros (lb & lf & HI) Hq Hexp. unfold sweep_time.
+  pose proof HI as (R & (M1 & M2 & M3) & _).
+  assert (Fin : forall s', Inv s' -> p_curs s' = [] -> p_act s' = [] -> p_ncur s' = p_ncur s ->
+     p_curs s' = [] /\ p_ncur s' = p_ncur s /\
+     (forall c, c < p_ncur s' -> c_live (p_cur s' c) = false /\ c_closes (p_cur s' c) = 1 /\ c_rels (p_cur s' c) = 1) /\
+     (forall p, p_acq s' p = 0%Z)).
+  { intros s' HI' G1 G2 G3. split; [exact G1|]. split; [exact G3|].
+    pose proof (inv_empty_closed s' HI' G1 G2) as Cl. split; [exact Cl|].
+    intros p. rewrite (inv_acq s' HI' p). apply live_sum_dead. intros c Hc. apply (Cl c Hc). }
+  destruct (r_busy (p_rs s)) as [hd|] eqn:Eb.
+  - destruct (drain_loop (length (p_curs s)) hd s lb lf HI Hq) as (s' & E & HI' & G1 & G2 & G3).
+    + intros e Ie. destruct (M2 e Ie) as (c & _ & _ & _ & Hm). apply (Hexp _ _ Hm).
+    + lia.
+    + exact M3.
+    + intros _. apply (rs_head_in _ _ _ _ R Eb).
+    + exists s'. split; [exact E|]. apply Fin; assumption.
+  - exists s. split; [reflexivity|]. apply Fin; [exists lb, lf; exact HI| |exact Hq|reflexivity].
+    pose proof (rs_busy_none _ _ _ R Eb) as Z. rewrite Z in M3. destruct (p_curs s); [reflexivity|cbn in M3; lia].
+Qed.
+
+(* after the clock has passed every time-out everything cached has expired *)
+Lemma inv_all_expired s d : Inv s -> (Z.max (p_idle s) (p_busyto s) < d)%Z ->
+  forall k e, map_get (p_curs s) k = Some e -> (h_exp (p_vals s e) < p_now s + d)%Z.
+Proof.
+  intros (lb & lf & _ & (M1 & _) & _ & _ & _ & T) Hd k e Hk. destruct (M1 k e Hk) as [I0 _]. specialize (T e I0). lia.
+Qed.
+
+(* ================= unconditionally (any history, any schedule): partitions are never released twice ================= *)
+Definition Jc (cur : nat -> cursor) : Prop :=
+  forall c, (c_live (cur c) = true -> c_rels (cur c) = 0) /\ c_rels (cur c) <= 1.
+
+Lemma Jc_fupd cur c cu : Jc cur -> ((c_live cu = true -> c_rels cu = 0) /\ c_rels cu <= 1) -> Jc (fupd cur c cu).
+Proof. intros J H x. destruct (Nat.eq_dec x c) as [->|N]; [rewrite fupd_same; exact H|rewrite fupd_other by exact N; apply J]. Qed.
+
+Lemma Jc_close s c : Jc (p_cur s) -> Jc (p_cur (close_cur s c)).
+Proof.
+  intros J. unfold close_cur. destruct (c_live (p_cur s c)) eqn:L; sproj; apply Jc_fupd; try exact J; cbn; destruct (J c) as [J1 J2].
+  - rewrite (J1 L). split; [discriminate|lia].
+  - split; [discriminate|exact J2].
+Qed.
+
+Lemma Jc_pos cur c sp ip : Jc cur -> Jc (fupd cur c (with_pos (cur c) sp ip)).
+Proof. intros J. apply Jc_fupd; [exact J|]. cbn. apply J. Qed.
+
+Lemma Jc_boc (b : bool) s c : Jc (p_cur s) -> Jc (p_cur (if b then s else close_cur s c)).
+Proof. destruct b; [auto|apply Jc_close]. Qed.
+
+Lemma Jc_sweep_size fuel : forall s s', Jc (p_cur s) -> sweep_size_loop fuel s = Ok s' -> Jc (p_cur s').
+Proof.
+  induction fuel as [|f IH]; intros s s' J; cbn [sweep_size_loop];
+  destruct (Nat.leb (length (p_curs s)) (p_max s)); try (intros H; injection H as <-; exact J); try discriminate.
+  destruct (r_busy (p_rs s)); [|discriminate].
+  destruct (h_cur (p_vals s (cl_prev_of (r_links (p_rs s)) n))) as [c|]; [|discriminate].
+  apply IH. sproj. apply Jc_boc. exact J.
+Qed.
+
+Lemma Jc_sweep_time cnt : forall e0 s s', Jc (p_cur s) -> sweep_time_loop cnt e0 s = Ok s' -> Jc (p_cur s').
+Proof.
+  induction cnt as [|cnt IH]; intros e0 s s' J; [cbn; intros H; injection H as <-; exact J|].
+  rewrite sweep_time_loop_S. cbn zeta.
+  destruct (Z.ltb (h_exp (p_vals s (cl_prev_of (r_links (p_rs s)) e0))) (p_now s)).
+  - destruct (h_cur (p_vals s (cl_prev_of (r_links (p_rs s)) e0))) as [c|]; [|discriminate].
+    apply IH. unfold time_remove. sproj. apply Jc_boc. exact J.
+  - destruct (negb (h_busy (p_vals s (cl_prev_of (r_links (p_rs s)) e0)))); [intros H; injection H as <-; exact J|apply IH; exact J].
+Qed.
+
+Lemma Jc_step s o s' r : Jc (p_cur s) -> step s o = Ok (s', r) -> Jc (p_cur s').
+Proof.
+  intros J. destruct o; cbn [step].
+  - unfold get_lookup. destruct (act_get (p_act s) r0); try (intros H; injection H as <- _; exact J).
+    destruct (N.eqb id 0); [intros H; injection H as <- _; exact J|].
+    destruct (map_get (p_curs s) id) as [e|]; [|intros H; injection H as <- _; exact J].
+    destruct (h_busy (p_vals s e)); [intros H; injection H as <- _; exact J|].
+    destruct (h_cur (p_vals s e)) as [c|]; [|discriminate].
+    destruct (apply_state (p_cur s c) id q p) as [cu|] eqn:Ea; [|intros H; injection H as <- _; exact J].
+    intros H; injection H as <- _. sproj. apply Jc_fupd; [exact J|].
+    destruct (apply_state_sim _ _ _ _ _ Ea) as (_ & S2 & _ & _ & S5). rewrite S2, S5. apply J.
+  - unfold get_create. destruct (act_get (p_act s) r0); try (intros H; injection H as <- _; exact J).
+    destruct qr; try (intros H; injection H as <- _; exact J).
+    destruct p; intros H; injection H as <- _; sproj; try exact J; (apply Jc_fupd; [exact J|cbn; split; [reflexivity|lia]]).
+  - unfold get_insert. destruct (act_get (p_act s) r0); try (intros H; injection H as <- _; exact J).
+    destruct (rs_take (p_rs s)). intros H; injection H as <- _. exact J.
+  - unfold use. destruct (act_get (p_act s) r0); try (intros H; injection H as <- _; exact J).
+    intros H; injection H as <- _. sproj. apply Jc_pos. exact J.
+  - unfold release. destruct (act_get (p_act s) r0); try (intros H; injection H as <- _; exact J).
+    set (s1 := set_cursor s c (commit (p_cur s c))).
+    assert (J1 : Jc (p_cur s1)) by (unfold s1, commit; sproj; apply Jc_pos; exact J).
+    destruct (map_get (p_curs s1) (c_id (commit (p_cur s c)))).
+    + destruct (negb (h_busy (p_vals s1 n))); [discriminate|]. intros H; injection H as <- _. exact J1.
+    + intros H; injection H as <- _. sproj. apply Jc_close. exact J1.
+  - unfold lift, sweep_size. destruct (sweep_size_loop (S (r_nelem (p_rs s))) s) eqn:E; try discriminate.
+    intros H; injection H as <- _. apply (Jc_sweep_size _ _ _ J E).
+  - unfold lift, sweep_time. destruct (r_busy (p_rs s)); [|intros H; injection H as <- _; exact J].
+    destruct (sweep_time_loop (length (p_curs s)) n s) eqn:E; try discriminate.
+    intros H; injection H as <- _. apply (Jc_sweep_time _ _ _ _ J E).
+  - intros H; injection H as <- _. exact J.
+  - intros H; injection H as <- _. exact J.
+Qed.
+
+Lemma Jc_run ops : forall s, Jc (p_cur s) -> Jc (p_cur (fst (fst (run s ops)))).
+Proof.
+  induction ops as [|o ops IH]; intros s J; cbn [run]; [exact J|].
+  destruct (step s o) as [[s' r]| | |] eqn:E; try exact J.
+  specialize (IH s' (Jc_step _ _ _ _ J E)). destruct (run s' ops) as [[sf rs] oc]. exact IH.
+Qed.
+
+Lemma Jc_init max idle busyto : Jc (p_cur (init max idle busyto)).
+Proof. intros c. cbn. split; [discriminate|lia]. Qed.
